@@ -1,7 +1,21 @@
 (* C09 - Deadlines: faithful grpc-timeout encoding and shortest-deadline enforcement.
    Statements only: each theorem is closed by [exact] of a lemma proved in Proofs/Timeout.v.
    Durations are nanoseconds; [denote] / [spec_unit_ns] (Model/Timeout.v) are the hand-written
-   reading of the gRPC spec, the unit tables of the code come from Gen/TimeoutTables.v. *)
+   reading of the gRPC spec, the unit tables of the code come from Gen/TimeoutTables.v.
+
+   SCOPE OF "a call is cut off".  GrpcTimeout (server and client side) races the deadline against
+   the future of the http::Response, i.e. the response HEAD; nothing wraps the body.  The cut-off
+   clause is therefore established
+     - for every call, for its head ([c09_head_race], strict whenever the ticks differ; each
+       enforcement point on its own in [c09_server_only] / [c09_client_only]);
+     - for the whole call outside the known-findings class [KnownC09_head_in_time] (head no later
+       than the deadline's tick, end of the response after it): [c09_call_outside_known_class];
+       every unary call answered by a tonic server is outside the class ([c09_unary_outside_class],
+       its head is produced after the handler), which is the tonic<->tonic statement [c09_call].
+   INSIDE the class the call is NOT cut off, as observed on the implementation and stated in
+   [c09_stream_overrun_refuted*] (F-C09b: server streams, either or both sides enforcing) and
+   [c09_late_body_overrun_refuted] (F-C09c: unary response of a peer that sends its head early);
+   what is guaranteed there is the head race and complete delivery ([c09_head_race]). *)
 From Verif Require Import Lib.Bytes Lib.HeaderMap Lib.Decimal.
 From Verif Require Import Gen.StatusTables Gen.TimeoutTables Model.Status Model.Timeout Proofs.Timeout.
 Close Scope string_scope.
@@ -141,6 +155,112 @@ Theorem c09_call : forall s ccfg scfg lat, (forall d, s = SetTimeout d -> d < FM
     end.
 Proof. exact run_spec. Qed.
 
+(* ---- the two enforcement points separately; what follows the response head ---- *)
+
+(* every call (client: tonic Channel or a raw client that enforces nothing; server: tonic Server
+   or a stub that ignores grpc-timeout; head at tick sh_head, then sh_n messages sh_gap apart):
+   the shortest ENFORCED deadline is raced against the head; once the head is in, everything is
+   delivered and nothing is cut; a call cut at the head delivers nothing and a handler that had
+   not produced its head by then never does *)
+Theorem c09_head_race : forall s ck sk sh, (forall d, s = SetTimeout d -> d < FMT_LIMIT) ->
+  exists o, call s ck sk sh = Ok o /\
+    match enforced_deadline s ck sk with
+    | None => co_head o = None /\ co_head_tick o = sh_head sh
+    | Some D =>
+        (sh_head sh < sleep_tick D -> co_head o = None /\ co_head_tick o = sh_head sh) /\
+        (sleep_tick D < sh_head sh -> is_timeout_status (co_head o) /\ co_head_tick o = sleep_tick D) /\
+        (sh_head sh = sleep_tick D ->
+           (co_head o = None \/ is_timeout_status (co_head o)) /\ co_head_tick o = sh_head sh)
+    end /\
+    (co_head o = None ->
+       co_final o = None /\ co_msgs o = unary_msgs sh /\ co_end_tick o = end_tick sh /\
+       co_produced o = sh_n sh /\ co_fate o = Done (sh_head sh)) /\
+    (co_head o <> None ->
+       co_final o = co_head o /\ co_msgs o = 0 /\ co_end_tick o = co_head_tick o /\
+       (forall t, co_fate o = Done t -> t = co_head_tick o)).
+Proof. exact call_head_race. Qed.
+
+(* forall x, ~ Known x -> P x: outside the class the whole call obeys the property *)
+Theorem c09_call_outside_known_class : forall s ck sk sh,
+  (forall d, s = SetTimeout d -> d < FMT_LIMIT) ->
+  ~ KnownC09_head_in_time s ck sk sh ->
+  exists o, call s ck sk sh = Ok o /\
+    match enforced_deadline s ck sk with
+    | None => co_final o = None /\ co_msgs o = unary_msgs sh /\ co_end_tick o = end_tick sh
+    | Some D =>
+        (end_tick sh < sleep_tick D ->
+           co_final o = None /\ co_msgs o = unary_msgs sh /\ co_end_tick o = end_tick sh) /\
+        (sleep_tick D < end_tick sh ->
+           is_timeout_status (co_final o) /\ co_msgs o = 0 /\ co_end_tick o = sleep_tick D /\
+           (forall t, co_fate o = Done t -> t = sleep_tick D)) /\
+        (end_tick sh = sleep_tick D ->
+           (co_final o = None \/ is_timeout_status (co_final o)) /\ co_end_tick o = end_tick sh)
+    end.
+Proof. exact call_outside_class. Qed.
+
+Theorem c09_unary_outside_class : forall s ck sk sh,
+  sh_n sh * sh_gap sh = 0 -> ~ KnownC09_head_in_time s ck sk sh.
+Proof. exact head_is_end_outside_class. Qed.
+
+(* [run] (used by c09_call) is [call] on the unary tonic<->tonic shape *)
+Theorem c09_run_is_call : forall s ccfg scfg lat,
+  run s ccfg scfg lat =
+  match call s (CChannel ccfg) (STonic scfg) (mkShape false lat 1 0) with
+  | Ok o => Ok (co_final o, co_end_tick o)
+  | Panic => Panic
+  end.
+Proof. exact run_is_call. Qed.
+
+(* exists x, Known x /\ ~ P x (F-C09b): Server::timeout 5 ms, head at 2 ms, 100 messages 1 s apart *)
+Theorem c09_stream_overrun_refuted :
+  exists s ck sk sh o,
+    KnownC09_head_in_time s ck sk sh /\ call s ck sk sh = Ok o /\
+    co_final o = None /\ co_msgs o = 100 /\ co_end_tick o = 100002 /\
+    enforced_deadline s ck sk = Some 5000000.
+Proof. exact stream_overrun_refuted. Qed.
+Theorem c09_stream_overrun_refuted_both_sides :
+  exists o,
+    KnownC09_head_in_time (SetTimeout 5000000) (CChannel (Some 5000000)) (STonic (Some 5000000))
+                          (mkShape true 2 100 1000) /\
+    call (SetTimeout 5000000) (CChannel (Some 5000000)) (STonic (Some 5000000))
+         (mkShape true 2 100 1000) = Ok o /\
+    co_final o = None /\ co_msgs o = 100 /\ co_end_tick o = 100002.
+Proof. exact stream_overrun_refuted_both_sides. Qed.
+(* F-C09c: Endpoint::timeout 5 ms, peer sends the head at 2 ms and the unary message at 12 ms *)
+Theorem c09_late_body_overrun_refuted :
+  exists o,
+    KnownC09_head_in_time NoDeadline (CChannel (Some 5000000)) SStub (mkShape false 2 1 10) /\
+    call NoDeadline (CChannel (Some 5000000)) SStub (mkShape false 2 1 10) = Ok o /\
+    co_final o = None /\ co_msgs o = 1 /\ co_end_tick o = 12.
+Proof. exact late_body_overrun_refuted. Qed.
+
+(* only the server enforces (client sends the header, enforces nothing): exact, ties included;
+   a cut handler is dropped at the deadline's tick *)
+Theorem c09_server_only : forall s scfg sh, (forall d, s = SetTimeout d -> d < FMT_LIMIT) ->
+  exists o, call s CRaw (STonic scfg) sh = Ok o /\
+    match effective (caller_deadline s) scfg with
+    | None => co_head o = None
+    | Some D =>
+        (co_head o = None <-> sh_head sh <= sleep_tick D /\ 0 < sleep_tick D) /\
+        (co_head o <> None ->
+           is_timeout_status (co_head o) /\ co_head_tick o = sleep_tick D /\
+           co_fate o = if sleep_tick D =? 0 then NotStarted else Dropped (sleep_tick D))
+    end.
+Proof. exact server_only_spec. Qed.
+
+(* only the client enforces (server ignores grpc-timeout): exact, ties included *)
+Theorem c09_client_only : forall s ccfg sh, (forall d, s = SetTimeout d -> d < FMT_LIMIT) ->
+  exists o, call s (CChannel ccfg) SStub sh = Ok o /\
+    match effective (caller_deadline s) ccfg with
+    | None => co_head o = None
+    | Some D =>
+        (co_head o = None <-> sh_head sh < sleep_tick D \/ sh_head sh = 0) /\
+        (co_head o <> None ->
+           is_timeout_status (co_head o) /\ co_head_tick o = sleep_tick D /\
+           co_fate o = if sh_head sh =? sleep_tick D then Done (sh_head sh) else Dropped (sleep_tick D))
+    end.
+Proof. exact client_only_spec. Qed.
+
 (* ---- non-vacuity ---- *)
 Example c09_fmt_30s : fmt_timeout 30000000000 = Ok [51; 48; 48; 48; 48; 48; 48; 48; 117]. (* 30000000u *)
 Proof. vm_compute. reflexivity. Qed.
@@ -183,8 +303,21 @@ Example c09_call_unaffected :
   run (SetTimeout 5000000) (Some 7000000) (Some 6000000) 4 = Ok (None, 4).
 Proof. vm_compute. reflexivity. Qed.
 
+Example c09_outside_class_premise_holds :   (* a stream whose head is late is outside the class and is cut *)
+  ~ KnownC09_head_in_time NoDeadline CRaw (STonic (Some 5000000)) (mkShape true 6 4 3) /\
+  exists o, call NoDeadline CRaw (STonic (Some 5000000)) (mkShape true 6 4 3) = Ok o /\
+    co_end_tick o = 5 /\ co_msgs o = 0 /\ co_fate o = Dropped 5.
+Proof.
+  split.
+  - intros (D & E & H1 & H2). vm_compute in E. injection E as <-. vm_compute in H1. congruence.
+  - eexists. split; [vm_compute; reflexivity|]. repeat split.
+Qed.
+
 Print Assumptions c09_fmt_faithful.
 Print Assumptions c09_set_timeout_roundtrip.
 Print Assumptions c09_parse_spec.
 Print Assumptions c09_race_spec.
 Print Assumptions c09_call.
+Print Assumptions c09_head_race.
+Print Assumptions c09_call_outside_known_class.
+Print Assumptions c09_stream_overrun_refuted.
